@@ -1,0 +1,86 @@
+//! Verification hooks. Only compiled with `--cfg mmtk_verif`; nothing in here is part of MMTk's
+//! API and nothing in here runs unless a harness installs a sink.
+//!
+//! * `emit` hands one event (a JSON object body without braces, e.g. `"ev":"Park","w":1`) to the
+//!   installed sink. The sink is expected to serialise events (it is called while the emitting
+//!   site still holds whatever lock protects the state it reports), so the order in which the
+//!   sink sees events is the linearisation order.
+//! * `sync_point` lets a harness perturb or gate the schedule at named sites.
+//! * `thread_tag` identifies the acting thread in events (GC workers: ordinal; mutators: set by
+//!   the harness, negative or >= 1000 by convention).
+
+use std::cell::Cell;
+use std::sync::atomic::{AtomicBool, Ordering};
+use std::sync::RwLock;
+
+pub type Sink = Box<dyn Fn(&str) + Send + Sync>;
+pub type SyncHook = Box<dyn Fn(&'static str, usize) + Send + Sync>;
+
+static ENABLED: AtomicBool = AtomicBool::new(false);
+static SYNC_ENABLED: AtomicBool = AtomicBool::new(false);
+static SINK: RwLock<Option<Sink>> = RwLock::new(None);
+static SYNC: RwLock<Option<SyncHook>> = RwLock::new(None);
+
+thread_local! {
+    static TAG: Cell<i64> = const { Cell::new(-1) };
+}
+
+/// Install the event sink. Events are dropped while no sink is installed.
+pub fn install_sink(sink: Sink) {
+    *SINK.write().unwrap() = Some(sink);
+    ENABLED.store(true, Ordering::SeqCst);
+}
+
+/// Remove the event sink.
+pub fn remove_sink() {
+    ENABLED.store(false, Ordering::SeqCst);
+    *SINK.write().unwrap() = None;
+}
+
+/// Is a sink installed?
+pub fn enabled() -> bool {
+    ENABLED.load(Ordering::Relaxed)
+}
+
+/// Emit one event. The closure builds the JSON body only when a sink is installed.
+pub fn emit(f: impl FnOnce() -> String) {
+    if !enabled() {
+        return;
+    }
+    let body = f();
+    if let Some(sink) = SINK.read().unwrap().as_ref() {
+        sink(&body);
+    }
+}
+
+/// Install the schedule-perturbation hook.
+pub fn install_sync_hook(hook: SyncHook) {
+    *SYNC.write().unwrap() = Some(hook);
+    SYNC_ENABLED.store(true, Ordering::SeqCst);
+}
+
+/// Remove the schedule-perturbation hook.
+pub fn remove_sync_hook() {
+    SYNC_ENABLED.store(false, Ordering::SeqCst);
+    *SYNC.write().unwrap() = None;
+}
+
+/// A named point at which a harness may delay or gate the calling thread.
+pub fn sync_point(site: &'static str, id: usize) {
+    if !SYNC_ENABLED.load(Ordering::Relaxed) {
+        return;
+    }
+    if let Some(hook) = SYNC.read().unwrap().as_ref() {
+        hook(site, id);
+    }
+}
+
+/// Set the tag of the calling thread.
+pub fn set_thread_tag(tag: i64) {
+    TAG.with(|t| t.set(tag));
+}
+
+/// The tag of the calling thread (-1 if never set).
+pub fn thread_tag() -> i64 {
+    TAG.with(|t| t.get())
+}
